@@ -8,6 +8,7 @@
 //! Exit status: 0 = ran to completion (disagreements are in the report), 2 = tool error.
 
 mod exec;
+mod record;
 mod util;
 mod verdict;
 
@@ -31,6 +32,7 @@ fn main() {
         "replay" => cmd_replay(&args[2..]),
         "exec-one" => cmd_exec_one(&args[2..]),
         "verdicts" => cmd_verdicts(&args[2..]),
+        "record-interp" => cmd_record_interp(&args[2..]),
         other => {
             eprintln!("unknown command {other}");
             2
@@ -244,5 +246,74 @@ fn cmd_verdicts(args: &[String]) -> i32 {
                         "interpreter_runs": executed, "failures": fails, "samples": samples});
     std::fs::write(report_path, serde_json::to_string(&report).unwrap()).unwrap();
     println!("verdicts: {} records, {} pass, {} fail, {} accepted by the specification, {} interpreter runs", recs.len(), pass, nfail, accepted, executed);
+    0
+}
+
+/// rv record-interp --seed S --n N --mode mixed|structured|arbitrary --out-prefix P --chunks K
+/// Drive the interpreter with N seeded random accepted programs, record every step, and write
+/// the traces to K files P.<k>.ndjson (validated in parallel by TLC).  A summary goes to P.summary.json.
+fn cmd_record_interp(args: &[String]) -> i32 {
+    let seed: u64 = arg(args, "--seed").map(|s| s.parse().unwrap()).unwrap_or(1);
+    let n: usize = arg(args, "--n").map(|s| s.parse().unwrap()).unwrap_or(100);
+    let mode = arg(args, "--mode").unwrap_or("mixed").to_string();
+    let prefix = arg(args, "--out-prefix").expect("--out-prefix");
+    let chunks: usize = arg(args, "--chunks").map(|s| s.parse().unwrap()).unwrap_or(1);
+    exec::calibrate_helpers();
+    let mut rng = Rng::new(seed);
+    // over-generate: the real verifier refuses some of the arbitrary programs
+    let mut cases: Vec<Value> = Vec::new();
+    if let Some(f) = arg(args, "--cases") {
+        // replay: record the given cases instead of generating
+        cases = read_ndjson(f).into_iter().map(|r| if r["case"].is_object() { r["case"].clone() } else { r }).collect();
+    } else {
+        for k in 0..(3 * n as u64 + 10) {
+            cases.push(record::gen_case(&mut rng, k, &mode));
+        }
+    }
+    let results = run_isolated(&cases, 20000, record::record_run);
+    let mut files: Vec<std::fs::File> = (0..chunks)
+        .map(|k| std::fs::File::create(format!("{prefix}.{k}.ndjson")).unwrap())
+        .collect();
+    let mut accepted = 0usize;
+    let mut rejected = 0usize;
+    let mut events = 0usize;
+    let mut crashes: Vec<Value> = Vec::new();
+    let mut outcomes: BTreeMap<String, u64> = BTreeMap::new();
+    let mut index: Vec<Value> = Vec::new();
+    use std::io::Write;
+    let mut per_chunk_lines = vec![0usize; chunks];
+    for (case, r) in cases.iter().zip(results.iter()) {
+        if accepted >= n {
+            break;
+        }
+        match r {
+            ChildResult::Done(v) => {
+                if v["rejected"] == json!(true) {
+                    rejected += 1;
+                    continue;
+                }
+                let k = accepted % chunks;
+                let evs = arr(&v["events"]);
+                index.push(json!({"chunk": k, "first_line": per_chunk_lines[k] + 1, "events": evs.len(), "id": case["id"]}));
+                for e in &evs {
+                    writeln!(files[k], "{}", serde_json::to_string(e).unwrap()).unwrap();
+                }
+                per_chunk_lines[k] += evs.len();
+                events += evs.len();
+                accepted += 1;
+                *outcomes.entry(v["outcome"].as_str().unwrap_or("?").to_string()).or_insert(0) += 1;
+                if v["outcome"] == "panic" {
+                    crashes.push(json!({"case": case, "how": "panic"}));
+                }
+            }
+            ChildResult::Signal(s) => crashes.push(json!({"case": case, "how": format!("signal {s}")})),
+            ChildResult::Timeout => crashes.push(json!({"case": case, "how": "timeout"})),
+            ChildResult::Exit(c) => crashes.push(json!({"case": case, "how": format!("exit {c}")})),
+        }
+    }
+    let summary = json!({"generated": cases.len(), "accepted": accepted, "rejected_by_verifier": rejected,
+                         "events": events, "outcomes": outcomes, "crashes": crashes, "index": index, "chunks": chunks});
+    std::fs::write(format!("{prefix}.summary.json"), serde_json::to_string(&summary).unwrap()).unwrap();
+    println!("record-interp: {} generated, {} accepted, {} events, outcomes {:?}, {} crashes", cases.len(), accepted, events, outcomes, crashes.len());
     0
 }
